@@ -81,9 +81,11 @@ ReqArgs(rq) ==
 ReqBytes(rq) == LET full == EncUTF(Asc(rq.sub)) \o ReqArgs(rq) IN SubSeq(full, 1, Len(full) - rq.trunc)
 
 -----------------------------------------------------------------------------
-(* proxy state: st = [players : Seq([name, uuid, host, port, server]),   server = <<>>: none
-                      servers : Seq([name, host, port]),
-                      modern : the server connections speak 1.13+ (channel bungeecord:main)] *)
+(* proxy state: st = [players : Seq([name, uuid, host, port, server, modern]),   server = <<>>: none;
+                                 modern: the player and its server connection speak 1.13+
+                      servers : Seq([name, host, port])]
+   The BungeeCord channel is called "BungeeCord" before 1.13 and "bungeecord:main" since; a
+   message is written under the name the RECEIVING connection understands. *)
 FindP(st, n) == LET s == {i \in 1..Len(st.players) : st.players[i].name = n} IN
                 IF s = {} THEN 0 ELSE CHOOSE i \in s : TRUE
 FindS(st, n) == LET s == {i \in 1..Len(st.servers) : st.servers[i].name = n} IN
@@ -96,12 +98,14 @@ Join(names) == IF names = <<>> THEN <<>>
 NamesOf(seq) == [i \in 1..Len(seq) |-> seq[i].name]
 OnServer(st, sn) == SelectSeq(st.players, LAMBDA p : p.server = sn)
 
-Chan(st) == IF st.modern THEN "bungeecord:main" ELSE "BungeeCord"
+ChanOf(p) == IF p.modern THEN "bungeecord:main" ELSE "BungeeCord"
+\* channel name on the server connection of the player called `who`
+Chan(st, who) == ChanOf(st.players[FindP(st, who)])
 
 \* one thing the proxy does
 Out(kind, who, where, chan, data) == [kind |-> kind, who |-> who, where |-> where, chan |-> chan, data |-> data]
 \* response written to the server connection of player `who`
-Resp(st, who, data) == Out("resp", who, <<>>, Chan(st), data)
+Resp(st, who, data) == Out("resp", who, <<>>, Chan(st, who), data)
 \* payload handed to server `where` (once), on the BungeeCord channel
 Fwd(where, data) == Out("forward", <<>>, where, "bungee", data)
 
@@ -179,18 +183,19 @@ Respond(st, rq) ==
 
 -----------------------------------------------------------------------------
 (* The enumerated space: small proxy states x sub-channels x argument classes. *)
-Pl(n, u, h, port, srv) == [name |-> Asc(n), uuid |-> Asc(u), host |-> Asc(h), port |-> port, server |-> srv]
+Pl(n, u, h, port, srv, m) == [name |-> Asc(n), uuid |-> Asc(u), host |-> Asc(h), port |-> port, server |-> srv, modern |-> m]
 Sv(n, h, port) == [name |-> Asc(n), host |-> Asc(h), port |-> port]
 
 None == <<>>
-P1 == Pl("Al", "00000000000000000000000000000001", "10.0.0.1", 50001, Asc("lobby"))
-P2s == {<<>>} \cup {<<Pl("Bob", "a0b1c2d3e4f5061728394a5b6c7d8e9f", "10.0.0.2", 65535, s)>> :
-                      s \in {Asc("lobby"), Asc("games"), None}}
-P3s == {<<>>, <<Pl("Cy", "ffffffffffffffffffffffffffffffff", "10.0.0.3", 1, Asc("games"))>>}
+P1s == {<<Pl("Al", "00000000000000000000000000000001", "10.0.0.1", 50001, Asc("lobby"), m)>> : m \in BOOLEAN}
+\* the other players may be on the other side of the 1.13 channel rename
+P2s == {<<>>, <<Pl("Bob", "a0b1c2d3e4f5061728394a5b6c7d8e9f", "10.0.0.2", 65535, None, TRUE)>>}
+       \cup {<<Pl("Bob", "a0b1c2d3e4f5061728394a5b6c7d8e9f", "10.0.0.2", 65535, s, m)>> :
+                      s \in {Asc("lobby"), Asc("games")}, m \in BOOLEAN}
+P3s == {<<>>, <<Pl("Cy", "ffffffffffffffffffffffffffffffff", "10.0.0.3", 1, Asc("games"), TRUE)>>}
 Svs == {<<Sv("lobby", "192.168.1.10", 25565), Sv("games", "192.168.1.20", 40000)>>,
         <<Sv("lobby", "192.168.1.10", 25565), Sv("games", "192.168.1.20", 40000), Sv("empty", "192.168.1.30", 80)>>}
-States == {[players |-> <<P1>> \o p2 \o p3, servers |-> sv, modern |-> m] :
-             p2 \in P2s, p3 \in P3s, sv \in Svs, m \in BOOLEAN}
+States == {[players |-> p1 \o p2 \o p3, servers |-> sv] : p1 \in P1s, p2 \in P2s, p3 \in P3s, sv \in Svs}
 
 PlayerArgs == {Asc("Al"), Asc("Bob"), Asc("Cy"), Asc("nobody"), Asc("")}
 ServerArgs == {Asc("lobby"), Asc("games"), Asc("empty"), Asc("nowhere")}
@@ -242,6 +247,8 @@ ForwardOnce == /\ \A o1, o2 \in Fwds : o1.where = o2.where => o1 = o2
                /\ (rq.sub = "Forward" /\ rq.a \in {Asc("ALL"), Asc("ONLINE")} /\ rq.trunc = 0) =>
                      {o.where : o \in Fwds} = {st.servers[i].name : i \in 1..Len(st.servers)} \ {st.players[1].server}
 \* player-targeted requests act on the named player
+\* every response is written under the channel name of the connection it is written to
+ChannelOfReceiver == \A o \in Resps : o.chan = ChanOf(st.players[FindP(st, o.who)])
 ActsOnNamed == \A o \in R.outs : o.kind \in {"kick", "msg"} \/ (o.kind = "connect" /\ rq.sub = "ConnectOther") => o.who = rq.a
 \* unknown players / servers: nothing happens
 UnknownNothing ==
